@@ -39,13 +39,17 @@ type Program struct {
 }
 
 // Load type-checks the module found at dir and builds SSA for it and its dependencies.
-func Load(dir string, env []string) (*Program, error) {
+func Load(dir string, env []string) (*Program, error) { return LoadOverlay(dir, env, nil) }
+
+// LoadOverlay is Load with file contents that replace what is on disk (the normalised sources).
+func LoadOverlay(dir string, env []string, overlay map[string][]byte) (*Program, error) {
 	start := time.Now()
 	os.Unsetenv("GOWORK")
 	cfg := &packages.Config{
-		Mode:  packages.LoadAllSyntax,
-		Dir:   dir,
-		Tests: false,
+		Mode:    packages.LoadAllSyntax,
+		Dir:     dir,
+		Tests:   false,
+		Overlay: overlay,
 		Env: append(append(os.Environ(), "GOFLAGS=-mod=mod", "GOPROXY=off", "GOSUMDB=off", "GOTOOLCHAIN=local", "GOWORK=off"),
 			env...),
 	}
